@@ -42,6 +42,12 @@ pub fn ops_structural() -> Vec<Op> {
     for (x, y, nm) in [(g(0), g(2), "replace(a1,a3)"), (g(2), g(1), "replace(a3,a2)"), (g(0), g(0), "replace(a1,a1)"), (g(1), g(3), "replace(a2,a1e)")] {
         v.push(op(nm, move |e| e.replace_assertion(x.clone(), y.clone()).ok()));
     }
+    // the plural adders with a repetition inside the batch, with both forms (plain, elided) of one assertion, and with the receiver's own assertions
+    { let (a1, a3, a1e) = (g(0), g(2), g(3));
+      { let b = vec![a1.clone(), a3.clone(), a1.clone()]; v.push(op("add_assertion_envelopes([a1,a3,a1])", move |e| e.add_assertion_envelopes(&b).ok())); }
+      { let b = vec![a3.clone(), a1e.clone(), a1.clone()]; v.push(op("add_assertion_envelopes([a3,a1e,a1])", move |e| e.add_assertion_envelopes(&b).ok())); }
+      { let b = vec![a3.clone(), a3.clone()]; v.push(op("add_assertions([a3,a3])", move |e| Some(e.add_assertions(&b)))); }
+      v.push(op("add_assertion_envelopes(own assertions)", |e| e.add_assertion_envelopes(&e.assertions()).ok())); }
     v.push(op("replace_subject(leaf)", |e| Some(e.replace_subject(Envelope::new("s2")))));
     v.push(op("replace_subject(node)", |e| Some(e.replace_subject(Envelope::new("s3").add_assertion("q", "r")))));
     v.push(op("replace_subject(wrapped)", |e| Some(e.replace_subject(Envelope::new("s4").wrap_envelope()))));
